@@ -907,6 +907,8 @@ pub struct Disk {
     pub clock_ns: u64,
     /// decides the (arbitrary, checkout-time) modification times of the image files
     pub mtime_seed: u64,
+    /// executions this machine has seen so far
+    pub epoch: u32,
 }
 
 pub const CLOCK_START_NS: u64 = 1_700_000_000_000_000_000;
@@ -1045,6 +1047,9 @@ pub struct World {
     pub yielded: std::collections::BTreeSet<u32>,
     /// size of the simulated rayon pool (decided like the core count, or set by the program)
     pub rayon_threads: Option<u32>,
+    /// process id of this simulated execution
+    pub pid: u32,
+    pub epoch: u32,
 }
 
 thread_local! {
@@ -1136,6 +1141,8 @@ impl World {
             fd_exhausted: false,
             yielded: Default::default(),
             rayon_threads: None,
+            pid: 4711,
+            epoch: 0,
         }
     }
 
@@ -1189,6 +1196,9 @@ impl World {
         self.removed = d.removed.clone();
         self.clock_ns = d.clock_ns;
         self.mtime_seed = d.mtime_seed;
+        // another process than its predecessors in the session
+        self.epoch = d.epoch;
+        self.pid = 2000 + d.epoch * 37 + (d.mtime_seed % 1000) as u32;
     }
 
     /// What this run leaves behind. After a power loss every path modified since its last durable
@@ -1243,6 +1253,7 @@ impl World {
             removed,
             clock_ns: self.clock_ns,
             mtime_seed: self.mtime_seed,
+            epoch: self.epoch + 1,
         }
     }
 
